@@ -2,7 +2,7 @@
 //! C12 (help lists exactly what is accepted) and C16 (generated documentation).
 use crate::def::*;
 
-pub const DOC_FIELDS: usize = 19;
+pub const DOC_FIELDS: usize = 20;
 
 fn h(n: Names, t: &str) -> Names {
     n.help(t)
@@ -50,6 +50,12 @@ pub fn doc_field(k: usize) -> P {
             P::Pos { ty: Ty::Os, strict: Strict::Any, metavar: "XB".into(), help: None },
         ])
         .opt(),
+        // an adjacent group whose value is matched by `any` (KEY=VAL) and has its own help row
+        19 => P::Adj(vec![
+            P::ReqFlag(h(Names::long("set"), "set a key")),
+            P::AnyKv { metavar: "KEY=VAL".into(), help: Some(DocSpec::plain("key value pair")) },
+        ])
+        .many(),
         _ => unreachable!(),
     }
 }
